@@ -87,6 +87,10 @@ pub fn run(a: &Args) {
         }
     }
     for chunk in todo.chunks(8) {
+        if crate::l2::timeouts() >= crate::l2::ENOUGH_TIMEOUTS {
+            sink.count("stopped-early-after-timeouts");
+            break;
+        }
         let hs: Vec<_> = chunk.iter().map(|&(c, s, t)| std::thread::spawn(move || ((c, s, t), scenario(c, s, t)))).collect();
         for h in hs {
             match h.join() {
